@@ -373,22 +373,127 @@ def r00(ctx, repo, files=None):
                         'of axis lengths, so a correctly laid-out array '
                         'whose two axes happen to have equal length is '
                         'transposed as well' % (arr, U(st.test)[:60]))
-        # L12: np.squeeze without axis turns a length-1 input into a 0-d
+        # L12: squeeze without axis turns a length-1 input into a 0-d
         # array (len() and indexing then fail)
-        pset = {a.arg for a in fn.args.args + fn.args.kwonlyargs}
+        pset = {a.arg for a in fn.args.args + fn.args.kwonlyargs} - {'self'}
+        derived = set(pset)
+        changed = True
+        while changed:
+            changed = False
+            for a in ast.walk(fn):
+                if isinstance(a, ast.Assign) and len(a.targets) == 1 \
+                        and isinstance(a.targets[0], ast.Name) \
+                        and a.targets[0].id not in derived and any(
+                            isinstance(x, ast.Name) and x.id in derived
+                            for x in ast.walk(a.value)):
+                    derived.add(a.targets[0].id)
+                    changed = True
         for c in ast.walk(fn):
-            if isinstance(c, ast.Call) and U(c.func) in (
-                    'np.squeeze', 'numpy.squeeze') and len(c.args) == 1 \
-                    and not c.keywords and isinstance(c.args[0], ast.Name) \
-                    and c.args[0].id in pset:
+            if not isinstance(c, ast.Call):
+                continue
+            arg = None
+            if U(c.func) in ('np.squeeze', 'numpy.squeeze') \
+                    and len(c.args) == 1 and not any(
+                        k.arg == 'axis' for k in c.keywords):
+                arg = c.args[0]
+            elif isinstance(c.func, ast.Attribute) and c.func.attr == \
+                    'squeeze' and not c.args and not c.keywords and U(
+                        c.func.value) not in ('np', 'numpy'):
+                arg = c.func.value
+            if arg is None:
+                continue
+            src = [x.id for x in ast.walk(arg) if isinstance(x, ast.Name)
+                   and x.id in derived]
+            if src:
                 bad += 1
                 ctx.violation(
                     rule, repo.loc(c, cls, fn.name), construct,
-                    'L12 squeeze of an argument %s' % c.args[0].id,
+                    'L12 squeeze of an argument %s' % src[0],
                     '`%s` removes *every* axis of length one from the '
                     'caller\'s array: an input with a single entry becomes '
                     '0-dimensional and the following len() / indexing '
                     'raises' % U(c)[:50])
+        # L13: rounding a computed value replaces it by a different number;
+        # no documented quantity of the library is defined up to a tolerance
+        for c in ast.walk(fn):
+            if not isinstance(c, ast.Call):
+                continue
+            f = U(c.func)
+            is_round = f in ('round', 'np.round', 'np.around', 'np.rint',
+                             'np.floor', 'np.ceil', 'np.trunc', 'np.fix',
+                             'np.round_', 'math.floor', 'math.ceil') or (
+                isinstance(c.func, ast.Attribute) and c.func.attr == 'round'
+                and U(c.func.value) not in ('np', 'numpy'))
+            if not is_round:
+                continue
+            par = getattr(c, '_parent', None)
+            shown = False
+            while par is not None and not isinstance(par, ast.stmt):
+                if isinstance(par, (ast.JoinedStr, ast.FormattedValue)) or (
+                        isinstance(par, ast.Call) and U(par.func) in (
+                            'str', 'repr', 'print', 'format')):
+                    shown = True
+                par = getattr(par, '_parent', None)
+            if shown:
+                continue
+            bad += 1
+            ctx.violation(
+                rule, repo.loc(c, cls, fn.name), construct,
+                'L13 rounded value',
+                '`%s` rounds a computed value: times, measurements, '
+                'parameters, ranks and scores that differ by less than the '
+                'rounding step are merged / moved, which none of the '
+                'documented quantities allows' % U(c)[:60])
+        # L15: sampling individuals / rows with `choice(.., replace=<not
+        # True>)` draws without replacement: the draws are no longer
+        # independent samples of the documented (discrete) distribution
+        for c in ast.walk(fn):
+            if isinstance(c, ast.Call) and isinstance(
+                    c.func, ast.Attribute) and c.func.attr == 'choice':
+                for k in c.keywords:
+                    if k.arg == 'replace' and not (isinstance(
+                            k.value, ast.Constant) and k.value.value is True):
+                        bad += 1
+                        ctx.violation(
+                            rule, repo.loc(c, cls, fn.name), construct,
+                            'L15 draws without replacement',
+                            '`%s` draws without replacement (replace=%s): '
+                            'the returned samples are a partial permutation, '
+                            'not independent draws from the distribution' % (
+                                U(c)[:50], U(k.value)[:30]))
+        # L14: a container created with *_like(<argument>) inherits the
+        # argument's dtype; storing computed (floating point) values into it
+        # truncates them for integer input
+        stored_into = set()
+        for a in ast.walk(fn):
+            if isinstance(a, (ast.Assign, ast.AugAssign)):
+                tg = a.targets if isinstance(a, ast.Assign) else [a.target]
+                for t in tg:
+                    if isinstance(t, ast.Subscript) and isinstance(
+                            t.value, ast.Name):
+                        stored_into.add(t.value.id)
+                    if isinstance(a, ast.AugAssign) and isinstance(
+                            t, ast.Name):
+                        stored_into.add(t.id)
+        for a in ast.walk(fn):
+            if isinstance(a, ast.Assign) and len(a.targets) == 1 \
+                    and isinstance(a.targets[0], ast.Name) \
+                    and isinstance(a.value, ast.Call) and U(
+                        a.value.func) in ('np.zeros_like', 'np.empty_like',
+                                          'np.ones_like', 'np.full_like') \
+                    and a.value.args and not any(
+                        k.arg == 'dtype' for k in a.value.keywords) \
+                    and a.targets[0].id in stored_into and any(
+                        isinstance(x, ast.Name) and x.id in derived
+                        for x in ast.walk(a.value.args[0])):
+                bad += 1
+                ctx.violation(
+                    rule, repo.loc(a, cls, fn.name), construct,
+                    'L14 container inherits dtype %s' % a.targets[0].id,
+                    '`%s` allocates the result container with the dtype of '
+                    'the caller\'s array: for integer-valued input the '
+                    'computed floating point entries are truncated when '
+                    'they are stored into it' % norm_stmt(a)[:60])
         # L5: a function that takes `axis` hands it to every reduction over
         # its array argument (a reduction without it collapses all axes)
         pnames = [a.arg for a in fn.args.args + fn.args.kwonlyargs]
